@@ -11,6 +11,8 @@ after the end); a roll-up passed through round()/int() is not the sum; min/max(.
 flag kept on the task objects instead of a per-call memo (sched.PassShape.memo_on_task) makes a later calc skip tasks.
 Round 6: each task is scheduled once (sched_fill.scheduled_once, shared with C04); DirectCalendar looks its per-day table up
 with the day start (a raw moment gives two capacities for one day: start fraction vs end fraction).
+Round 7: a None handed to the Task.estimate / Task.spent setters is stored on every path (otherwise the reset is a no-op); a
+reset written as a walk over `.children` of the node it is given never resets the nodes it starts from.
 Not decided: start <= end of a leaf from the numeric interaction of day fractions.
 """
 from __future__ import annotations
@@ -89,6 +91,12 @@ def check(ctx):
                "midnight; a table that is keyed by day but looked up with the raw moment gives two capacities for one day and the "
                "start fraction can pass the end", floor=1)
     ctx.guarded(o, lambda o: per_day_lookup(ctx, o))
+
+    o = ctx.ob('reset_reaches_the_work_fields', 'R5',
+               "clearing a summary writes None through the Task.estimate / Task.spent setters: a None handed to the setter is stored "
+               "on every path (a setter that drops None turns the reset before scheduling into a no-op and the summary keeps the "
+               "user's value instead of the children's sum)", floor=2)
+    ctx.guarded(o, lambda o: setters_store_none(ctx, o))
 
     o = ctx.ob('wbs_start_end', 'R8', "WBS.start = min(root starts), WBS.end = max(root ends), over all roots, None filter only", floor=2)
     ctx.guarded(o, lambda o: wbs_bounds(ctx, o))
@@ -190,12 +198,19 @@ def cleared(ctx, o, S):
         w = ex.expand(m['w'], cfg.node_of(lp)) if m else None
         sites.append((calc, lp, tv, sts, w, cfg.node_of(lp), src(m['w']) if m else None, lp))
     helpers = []
+    nested_walks = []
     for c in [n for n in walk_no_nested(calc.node) if isinstance(n, ast.Call)]:
         g = ex._single_target(c)
         if g is None or g is calc or g.qual == S['pass_']:
             continue
         gl = _clearing_loops(g)
         if not gl:
+            # the clearing written as a walk in a nested procedure of the helper (`def reset(parent): for t in parent.children: ..`)
+            for h in prog.all_funcs():
+                if h.qual.startswith(g.qual + '.') and not isinstance(h.node, ast.Lambda):
+                    for lp, tv, sts in _clearing_loops(h):
+                        p0 = [x for x in g.params if x != g.self_name]
+                        nested_walks.append((h, lp, tv, sts, ex.expand(c.args[0]) if c.args else None, cfg.node_containing(c), None, c))
             continue
         helpers.append(g)
         p0 = [x for x in g.params if x != g.self_name]
@@ -204,7 +219,26 @@ def cleared(ctx, o, S):
             if p0 and c.args:
                 arg = ex.expand(c.args[0])
             sites.append((g, lp, tv, sts, arg, cfg.node_containing(c), p0[0] if p0 else None, c))
+    if not sites and nested_walks:
+        h, lp, tv, sts, w, cn, wname, where = nested_walks[0]
+        if isinstance(lp.iter, ast.Attribute) and lp.iter.attr in ('children', 'all_children') and isinstance(lp.iter.value, ast.Name) and \
+                lp.iter.value.id in h.params:
+            o.refute(h, lp, lp.iter, f"summary fields are cleared by a walk that resets `{src(lp.iter)}` of the node it is given: the nodes the walk "
+                                     f"is started from (the root tasks) are never reset themselves; expected every task of the WBS (<wbs>.tasks)")
+        else:
+            o.undecided(h, lp, lp.iter, "summary fields are cleared by a nested procedure the rule does not follow")
+        return
     if not sites:
+        # some function reachable from calc (helper or a nested procedure of it) resets the fields in a form the rule does not follow
+        cands = [calc] + [h for h in prog.all_funcs() if not isinstance(h.node, ast.Lambda) and h.module.name == 'schedule' and
+                          (h.qual.startswith(calc.qual.rsplit('.', 1)[0] + '.') or '.' not in h.qual.split('.', 1)[1])]
+        for h in cands:
+            if h.qual == S['pass_']:
+                continue
+            other = [st for st, tgt, val in _stores_elementwise(h) if tgt.attr in FIELDS and isinstance(val, ast.Constant) and val.value is None]
+            if other and (h is calc or facts.calls_named(calc, h.name) or any(facts.calls_named(p_, h.name) for p_ in cands if p_ is not h)):
+                o.undecided(h, other[0], other[0], "summary fields are reset in a form the rule does not follow (not a loop over <wbs>.tasks)")
+                return
         o.refute(calc, calc.node, 'clearing of summary fields', "user values on summary tasks are never cleared before scheduling")
         return
     if len(sites) > 1:
@@ -568,6 +602,44 @@ def wbs_bounds(ctx, o):
                 good = None
         if good is False:
             o.refute(f, f.node, f'WBS.{attr}', f"WBS.{attr} never returns the {op} over the roots")
+
+
+def setters_store_none(ctx, o):
+    prog = ctx.prog
+    for attr in ('estimate', 'spent'):
+        f = prog.func(f'task.Task.{attr}.setter')
+        vp = f.params[1]
+        cfg = cfg_of(f)
+        stores = {cfg.node_of(st).id for st, tgt, val in facts.attr_stores(f) if isinstance(tgt.value, ast.Name) and tgt.value.id == f.params[0]
+                  and unmangle(tgt.attr).lstrip('_') == attr and cfg.node_of(st) is not None and
+                  (isinstance(val, ast.Name) and val.id == vp or not isinstance(val, ast.Constant) or val.value is None)}
+        if not stores:
+            o.undecided(f, f.node, f'{attr} store', f"no store to the private {attr} field found in the setter")
+            continue
+        # is the normal exit reachable for value None without passing a store?  branches that say `value is not None` are not taken
+        dead = set()
+        for b in cfg.nodes:
+            if b.kind == 'branch' and b.test is not None and not isinstance(b.test, (ast.For, ast.AsyncFor)):
+                for a, q in facts.split_conj(b.test, b.polarity):
+                    if facts.cond_is(a, q, f"{vp} is None", want=False) or facts.cond_is(a, q, vp, want=True):
+                        dead.add(b.id)
+        seen, todo, leak = set(), [cfg.entry], None
+        while todo:
+            x = todo.pop()
+            if x.id in seen or x.id in stores or x.id in dead or isinstance(x.ast, ast.Raise):
+                continue
+            seen.add(x.id)
+            if x is cfg.exit:
+                leak = True
+                break
+            todo.extend(x.succ)
+        if leak:
+            rets = [n for n in walk_no_nested(f.node) if isinstance(n, ast.Return)]
+            o.refute(f, rets[0] if rets else f.node, f'{attr} = None dropped',
+                     f"Task.{attr} setter can return for `{vp} is None` without storing it: `task.{attr} = None` (the reset of summary values "
+                     f"before scheduling) is a no-op, the summary keeps the user's {attr} instead of the sum of its children")
+        else:
+            o.site(f, f.node, f"Task.{attr} = None is stored")
 
 
 def per_day_lookup(ctx, o):
